@@ -185,6 +185,11 @@ INLINE_KINDS = ("list", "vector", "bytes", "str", "stream")
 # a second dict INSTANCE has its own random iteration order, which shows in the Display text of function-valued
 # results: tuples with a dict argument are not re-spelt inline
 NO_INLINE_KINDS = ("dict",)
+# ... except for the callables whose result is a function of the dict's CONTENTS only (set algebra, lookups, size,
+# equality): anything that iterates a dict argument (insert / |.. / map_keys / first / $ / ...) gives results that
+# legitimately differ between two instances of the same dict
+DICT_ORDER_FREE = {"||", "&&", "--", "||+", "|.", "-.", "==", "!=", "len", "in", "not_in", "∈", "∉", "!?", "!!", "index",
+                   "contains", "discard"}
 INLINE_FORMS = {1: 2, 2: 6, 3: 2}          # how many leading forms of each arity also get an inline spelling
 F_LSEC = ("(a f)(b)", "({a} {f})({b})")
 F_RSEC = ("f(b)(a)", "{f}({b})({a})")
@@ -392,10 +397,10 @@ def judge(c, args, forms, evs):
     vd.ok_base = base_e.get("o") == "ok"
     sym = [n for n, _ in FORMS[ar]]
     # a second dict INSTANCE has its own random iteration order, which shows in everything derived from iterating it
-    # (Display text, first/last/take, folds): with a dict argument the inline spellings are only compared when
-    # every returned value is itself a dict / set (compared as a multiset of entries) containing no function
-    if not any(BYN[a][2] in NO_INLINE_KINDS for a in args) or all(
-            isinstance(e.get("v"), dict) and "d" in e["v"] and not _has_fn(e["v"]) for e in evs if e.get("o") == "ok"):
+    # (Display text, first/last/take, folds, insert / |.. of its pairs): with a dict argument the inline spellings are
+    # only compared for the order-free callables (DICT_ORDER_FREE) and dict / integer results without functions
+    if not any(BYN[a][2] in NO_INLINE_KINDS for a in args) or (c.tok in DICT_ORDER_FREE and all(
+            (not isinstance(e.get("v"), dict) or "d" in e["v"] or "i" in e["v"]) and not _has_fn(e.get("v")) for e in evs if e.get("o") == "ok")):
         sym += [n for n, _ in forms if n.startswith("inline ")]
     if ar == 2 and F_LSEC[0] in byname:
         sym.append(F_LSEC[0])
